@@ -343,6 +343,7 @@ func runGen(args []string) int {
 	}
 	enums := g.genEnums(repo)
 	nyct := g.genNyct(repo)
+	footprint := g.genFootprint(repo)
 	if len(g.errs) > 0 {
 		for _, e := range g.errs {
 			fmt.Fprintln(os.Stderr, "gen:", e)
@@ -355,6 +356,10 @@ func runGen(args []string) int {
 		return 1
 	}
 	if err := os.WriteFile(filepath.Join(out, "NyctTables.v"), []byte(nyct), 0o644); err != nil {
+		fmt.Fprintln(os.Stderr, err)
+		return 1
+	}
+	if err := os.WriteFile(filepath.Join(out, "Footprint.v"), []byte(footprint), 0o644); err != nil {
 		fmt.Fprintln(os.Stderr, err)
 		return 1
 	}
